@@ -19,7 +19,15 @@ def main(argv):
         payload = json.load(open(argv[1]))
         modname, fn = payload["replay_fn"].split(":")
         mod = importlib.import_module(modname)
-        ok, detail = getattr(mod, fn)(payload["scenario"])
+        try:
+            ok, detail = getattr(mod, fn)(payload["scenario"])
+        except Exception as e:  # a reference replay in which the code under analysis itself raises reproduces the report (DESIGN 2.9b)
+            from symx import explorer
+
+            site = explorer._raise_site(e)
+            if site is None:
+                raise
+            ok, detail = True, f"the code under analysis raises {type(e).__name__}: {str(e)[:200]} at {site[0]}:{site[1]} ({site[2]})"
         print(("REPRODUCED " if ok else "NOT-REPRODUCED ") + f"property={payload['property']} obligation={payload['obligation']}: {detail}")
         return 1 if ok else 0
     if len(argv) < 1:
